@@ -132,6 +132,9 @@ EDITS = {
     "labels:alias": [("set", "target_labels", ["car", "vehicle.car", "pedestrian"])],
     "labels:repeated": [("set", "target_labels", ["bicycle", "car", "car"])],
     "per_label:center": [("set", "center_distance_thresholds", [[1.0, 2.0, 3.0]])],
+    # another label family: the same rules hold
+    "prefix:traffic_light": [("set", "label_prefix", "traffic_light"), ("set", "target_labels", ["green", "red", "yellow"])],
+    "del:max_distance_pair": [("del", "max_x_position"), ("del", "max_y_position")],
 }
 
 
@@ -239,6 +242,7 @@ def units(tier, seed):
             u.append(dict(kind="config", task=task, pairs="double", chunk=[k, 4]))
     u.append(dict(kind="sensing"))
     u.append(dict(kind="np_scalars"))
+    u.append(dict(kind="divisors"))
     u.append(dict(kind="frame_config"))
     u.append(dict(kind="all_labels"))
     return u
@@ -265,6 +269,15 @@ def _np_spec(shape, v):
 
 
 def run_unit(unit, acc):
+    if unit["kind"] == "divisors":
+        # label counts with proper divisors (4, 6, 8, 9) and rows / flat lists whose length is such a divisor: neither 1 nor n
+        for n in (4, 6, 8, 9):
+            for ln in range(1, n + 1):
+                row = [float(i + 1) for i in range(ln)]
+                for spec in ([row], [row, [9.0]], [[9.0] * n, row], row):
+                    for nest in (False, True):
+                        check_case(dict(kind="spec", spec=spec, n=n, nest=nest), acc)
+        return
     if unit["kind"] == "np_scalars":
         for tok in NP_TOKENS:
             for shape in NP_SHAPES:
